@@ -3,7 +3,10 @@ use std::pin::Pin;
 use std::sync::{Arc};
 use std::sync::atomic::{AtomicBool, Ordering};
 use std::task::{Context, Poll, Waker};
+#[cfg(not(cached_verif))]
 use parking_lot::Mutex;
+#[cfg(cached_verif)]
+use crate::cache::verif::Mutex;
 use crate::cache::command::{CommandStatus, RejectionReason};
 
 /// The execution of every write operation is returned a `CommandAcknowledgement` wrapped inside [`crate::cache::command::command_executor::CommandSendResult`].
@@ -145,6 +148,10 @@ impl CommandAcknowledgement {
 
 #[cfg(cached_verif)]
 impl CommandAcknowledgementHandle {
+    pub fn verif_lock_ids(&self) -> Vec<(i64, String)> {
+        vec![(&*self.status as *const _ as i64, "ackStatus".to_string()), (&*self.waker_state as *const _ as i64, "ackWaker".to_string())]
+    }
+
     pub fn verif_id(&self) -> i64 { self as *const Self as i64 }
 
     /// (done flag, status cell) without registering a waker; `None` if the status cell is locked.
